@@ -108,6 +108,9 @@ OPERATION_NAMES = (
     "GET_YIELD_FROM_ITER",
     # Binary and in-place operations
     "BINARY_OP",
+    # Context managers (no jump target since Python 3.11, cleanup uses the exception table)
+    "BEFORE_WITH",
+    "BEFORE_ASYNC_WITH",
 )
 
 COND_BRANCH_NAMES = (
@@ -129,8 +132,6 @@ JUMP_NAMES = (
     "JUMP_FORWARD",
     "JUMP_BACKWARD",
     "JUMP_BACKWARD_NO_INTERRUPT",
-    "BEFORE_WITH",
-    "BEFORE_ASYNC_WITH",
 )
 
 
